@@ -25,7 +25,7 @@ META = {
             'outcome of an edit after transcription: equal NLP or an exception; silently different = violation.  distinct = by history',
     'functions': ['rockit/ocp.py:_transcribed/_transcribe/_untranscribe/solver/solve_limited', 'rockit/stage.py:_set_transcribed and every mutator (set_T, set_t0, subject_to, clear_constraints, add_objective, method, set_value, set_initial)',
                   'rockit/direct_method.py:main_transcribe/inherit/untranscribe', 'rockit/sampling_method.py:clean/untranscribe'],
-    'bounds': 'histories enumerated (not symbolic) up to length 2 exhaustively / 3 sampled over 16 operations x base method in {MS, SS, DC}; N=2, M in {1,2}; plus edits (subject_to, add_objective, set_T, clear_constraints) made on a sub-stage of a two-stage OCP after a transcription',
+    'bounds': 'histories enumerated (not symbolic) up to length 2 exhaustively / 3 sampled over 21 operations x base method in {MS, SS, DC}; N=2, M in {1,2}; explicit histories: discrete-time update rule re-assigned (SN) under MS/SS, clear_constraints over a DirectCollocation specification with constraints of every kind (control, point, integrator, integrator_roots, inf); plus edits (subject_to, add_objective, set_T, clear_constraints) made on a sub-stage of a two-stage OCP after a transcription',
     'outside': 'longer histories; callbacks; external methods; the numeric result of a full solve (only the iteration limit in effect is observed through sol.stats)',
     'assumptions': ['variables of the evolved and the fresh transcription correspond by creation order', 'reals for floats'],
 }
@@ -87,6 +87,19 @@ def instances(tier, seed):
         sp.T = ('free', Fr(3, 2))
         for h in (['TR'], ['TR', 'ST'], ['TR', 'Q_sample', 'TR']):
             add(history=h, spec=sp, cfg=Cfg(method, N=2, M=M, intg=intg or 'rk', grid=fam.G_UNI, degree=2, scheme='radau'), no_initial=True)
+    # discrete-time model: an update rule re-assigned after a transcription
+    for mi, (method, M) in enumerate((('MS', 2), ('SS', 1), ('MS', 1))):
+        sp = copy.deepcopy(fam.diffeq_core()[0])
+        sp.objective = [sum_(X(0) * X(0) + U(0) * U(0)), at_tf(X(1))]
+        sp.cons = [Con('==', at_t0(X(0)), 1), Con('==', at_t0(X(1)), 0), Con('<=<=', -2, 2, mid=U(0))]
+        sp.t0, sp.T = ('num', Fr(1, 2)), ('num', Fr(2))
+        for h in (['SN'], ['SOLVE', 'SN'], ['Q_sample', 'SN', 'Q_sample']):
+            add(history=h, spec=sp, cfg=Cfg(method, N=2, M=M, intg='rk', grid=fam.G_UNI), twin=False)
+    # constraints of EVERY kind are removed by clear_constraints (collocation-point constraints included)
+    sp = base_spec()
+    sp.cons = list(sp.cons) + [Con('<=', X(1), 4, grid='integrator_roots'), Con('<=', X(0) + X(1), 6, grid='integrator'), Con('<=', X(0), 5, grid='inf')]
+    for h in (['CC'], ['SOLVE', 'CC', 'ST'], ['CC', 'AO', 'SOLVE']):
+        add(history=h, spec=sp, cfg=Cfg('DC', N=2, M=2, grid=fam.G_UNI, degree=4, scheme='radau'))
     return items
 
 
@@ -201,6 +214,12 @@ def apply_op(op, b, spec, cfg, state):
         rhs = X(0) * (1 + n) - X(1) * Pg('pc') + t
         ocp.set_der(b.xs[1], b.mx(rhs))
         spec.ode = [spec.ode[0], rhs]
+    elif op == 'SN':
+        # the update rule of an existing state of a discrete-time model is re-assigned
+        from ..dsl import DTc
+        rhs = X(1) * Pg('pc') + DTc * X(0) * (1 + n) + t
+        ocp.set_next(b.xs[1], b.mx(rhs))
+        spec.nxt = [spec.nxt[0], rhs]
     elif op == 'SVP':
         # values of a per-interval parameter (one column per control interval)
         vals = [Fr(10 * n + k, 4) for k in range(cfg.N)]
